@@ -607,7 +607,13 @@ impl Policy<'_> {
                             out.push(format!("{what}: element <{name}> nested at level {} > {m}", depth + 1));
                         }
                     }
-                    for (_, a, v) in attrs {
+                    for (q, a, v) in attrs {
+                        if (self.c.allow_attrs.is_some() || self.strict()) && q != "0" {
+                            // the allow lists hold HTML attribute names; an attribute in a
+                            // namespace is serialized with its prefix and is none of them
+                            out.push(format!("{what}: namespaced attribute {a} ({q:?}) remains on <{name}> under an attribute allow list"));
+                            continue;
+                        }
                         if !self.attr_ok(name, a) {
                             out.push(format!("{what}: attribute {a} is not allowed on <{name}>"));
                             continue;
@@ -652,20 +658,35 @@ impl Policy<'_> {
     /// forest; removal = removed element name (after replacement), mx-reply under reply-fallback
     /// removal, nesting at or beyond the maximum depth, comments.
     pub fn kept_text(&self, f: &[N], depth: u32, out: &mut String) {
+        self.kept_text_with(f, depth, true, out)
+    }
+
+    /// `with_depth = false`: only subtrees removed by name (and comments) are left out — the most
+    /// that may remain (content of removed elements / of mx-reply under reply-fallback removal
+    /// must not).
+    pub fn kept_text_with(&self, f: &[N], depth: u32, with_depth: bool, out: &mut String) {
         for n in f {
             match n {
                 N::T(s) => out.push_str(s),
                 N::O => {}
                 N::E { name, ch, .. } => {
                     let name2 = self.elem_replacement(name).unwrap_or_else(|| name.clone());
-                    if self.elem_removed(&name2) || self.max_depth().is_some_and(|m| depth >= m) {
+                    if self.elem_removed(&name2)
+                        || (with_depth && self.max_depth().is_some_and(|m| depth >= m))
+                    {
                         continue;
                     }
-                    self.kept_text(ch, depth + 1, out);
+                    self.kept_text_with(ch, depth + 1, with_depth, out);
                 }
             }
         }
     }
+}
+
+/// `a` is a subsequence of `b` (characters in order, not necessarily adjacent).
+pub fn subsequence(a: &str, b: &str) -> bool {
+    let mut it = b.chars();
+    a.chars().all(|c| it.any(|d| d == c))
 }
 
 // ------------------------------------------------------------------ running the implementation
